@@ -409,8 +409,9 @@ class Explorer:
             wall_s=round(wall, 2),
             violations=len(violations),
         )
-        (VERIF / "evidence").mkdir(exist_ok=True)
-        (VERIF / "evidence" / f"{self.pid}.json").write_text(json.dumps(ev, indent=1, default=str))
+        evdir = Path(os.environ.get("VERIF_EVIDENCE_DIR") or (VERIF / "evidence"))
+        evdir.mkdir(exist_ok=True, parents=True)
+        (evdir / f"{self.pid}.json").write_text(json.dumps(ev, indent=1, default=str))
         self.log(f"[{self.pid}] tier={self.tier} seed={self.seed} cases={agg['cases']} "
                  f"execs={agg['execs']} nontrivial={agg['nontrivial']} known={dict(by_finding)} "
                  f"unattributed={agg['n_unattributed']} violations={len(violations)} "
